@@ -321,6 +321,12 @@ func Execute(c Case, keepTrace bool, ch chooser) (res Result) {
 	}
 	if s.blocked.Load() {
 		res.Blocked = true
+		if s.blockedOnStore != "" {
+			res.Steps, res.Switches, res.Recorded = s.step, s.switches, s.rec
+			tr.Add("blocked: %s", s.blockedOnStore)
+			res.Violation = viol("non-interference", "run-blocked-while-another-run-waits-for-its-store",
+				"under this schedule a run stopped making progress and resumed only once the runs waiting for an answer from their store were answered (the store seam only yields there, it holds nothing of the interpreter's): "+s.blockedOnStore)
+		}
 		return res
 	}
 	res.Steps, res.Switches, res.Recorded = s.step, s.switches, s.rec
@@ -725,6 +731,24 @@ func Worker(o core.WorkerOpts) *core.Report {
 		}
 		res := Execute(c, false, ch)
 		if res.Blocked {
+			if res.Violation != nil && l.ShouldReport(*res.Violation) {
+				v := *res.Violation
+				// every evaluation that blocks costs seconds of real time: a short minimisation only
+				min, used := core.Minimise(c, candidates, func(n Case) bool {
+					rr := Execute(n, false, newRecorded(n.Switches))
+					return rr.Violation != nil && rr.Violation.Signature() == v.Signature()
+				}, 3)
+				fr := Execute(min, true, newRecorded(min.Switches))
+				if fr.Violation == nil {
+					min = c
+					fr = Execute(c, true, newRecorded(c.Switches))
+					if fr.Violation == nil {
+						fr.Violation = &v
+					}
+				}
+				l.Rep.Reach["run_blocked_while_others_wait_in_store"]++
+				l.AddReplay(*fr.Violation, caseSeed, min, nil, fr.Trace.Events, fr.Trace.Hash(), used, "controlled")
+			}
 			noPreempt = true
 			l.Rep.Reach["cases_abandoned_code_under_test_blocked_on_a_lock"]++
 			l.Rep.Note = o.Mode + "; code under test blocks on locks: sequential fallback after case " + fmt.Sprint(i)
